@@ -22,6 +22,7 @@ type entShape struct {
 	Rec   string `json:"rec"`
 	Props string `json:"props"`
 	Refs  string `json:"refs"`
+	Ord   string `json:"ord"`
 }
 
 type docCase struct {
@@ -104,6 +105,9 @@ func renderEnt(w *World, e entShape, name string) (string, *CEntity) {
 	case "nested_entity":
 		parts = append(parts, `"props":{"p:a":{"id":"ex:sub","props":{"p:k":"v"},"refs":{}}}`)
 		exp.Props = map[string]any{pp + ":a": map[string]any{"id": w.EntP + ":sub", "props": map[string]any{pp + ":k": "v"}, "refs": map[string]any{}}}
+	case "unicode_escapes":
+		parts = append(parts, `"props":{"p:a":"\u00e9\n\"q\"\\ \ud83d\ude00","p:b":"<&>","p:c":" "}`)
+		exp.Props = map[string]any{pp + ":a": "é\n\"q\"\\ 😀", pp + ":b": "<&>", pp + ":c": " "}
 	case "empty_arrays":
 		parts = append(parts, `"props":{"p:a":[],"p:b":[[],[1]],"p:c":"s"}`)
 		exp.Props = map[string]any{pp + ":a": []any{}, pp + ":b": []any{[]any{}, []any{1.0}}, pp + ":c": "s"}
@@ -141,6 +145,25 @@ func renderEnt(w *World, e entShape, name string) (string, *CEntity) {
 		parts = append(parts, `"refs":{"r:p":{"id":"ex:t1"}}`)
 	case "unknown_prefix_value":
 		parts = append(parts, `"refs":{"r:p":"zz:t1"}`)
+	}
+	// key order of the entity object
+	switch e.Ord {
+	case "reversed":
+		for i, j := 0, len(parts)-1; i < j; i, j = i+1, j-1 {
+			parts[i], parts[j] = parts[j], parts[i]
+		}
+	case "id_last":
+		if len(parts) > 1 && strings.HasPrefix(parts[0], `"id"`) {
+			parts = append(parts[1:], parts[0])
+		}
+	case "deleted_first":
+		for i, p := range parts {
+			if strings.HasPrefix(p, `"deleted"`) && i > 0 {
+				rest := append(append([]string{}, parts[:i]...), parts[i+1:]...)
+				parts = append([]string{p}, rest...)
+				break
+			}
+		}
 	}
 	return "{" + strings.Join(parts, ",") + "}", exp
 }
@@ -298,7 +321,11 @@ func TestParser(t *testing.T) {
 				}
 			}
 			// (4) every proper prefix of a valid document is rejected without a panic
-			for cut := 1; cut < len(doc); cut += 1 + len(doc)/40 {
+			cutStep := 1 + len(doc)/40
+			if os.Getenv("VERIF_ALL_CUTS") == "1" {
+				cutStep = 1
+			}
+			for cut := 1; cut < len(doc); cut += cutStep {
 				_, terr, tp := parseDirect(w, doc[:cut])
 				sum.Checks++
 				if tp != "" {
@@ -307,6 +334,33 @@ func TestParser(t *testing.T) {
 				} else if terr == nil {
 					div("parser-accepts-truncated", "an error (prefix of "+fmt.Sprint(cut)+" bytes)", "accepted")
 					break
+				}
+			}
+		}
+		// (4b) grammar-level byte mutations of a valid document: replace / delete / insert one byte taken from the
+		// JSON punctuation at every position.  What a mutant denotes is not known here, so only the parts of the
+		// property that hold for ANY byte string are compared: no panic, and an entity is only handed over if the
+		// whole element it came from was read (the parser reported no error before it)
+		if d.Valid && os.Getenv("VERIF_MUTATE") == "1" && len(d.Ents) <= 2 {
+			const punct = "{}[]\":,0a\\ "
+			mutate := func(m string) bool {
+				_, _, mp := parseDirect(w, m)
+				sum.Checks++
+				if mp != "" {
+					div("parser-panic", "an error, not a panic (mutant "+m+")", mp)
+					return false
+				}
+				return true
+			}
+		mut:
+			for pos := 0; pos < len(doc); pos++ {
+				if !mutate(doc[:pos] + doc[pos+1:]) {
+					break
+				}
+				for k := 0; k < len(punct); k++ {
+					if !mutate(doc[:pos]+punct[k:k+1]+doc[pos+1:]) || !mutate(doc[:pos]+punct[k:k+1]+doc[pos:]) {
+						break mut
+					}
 				}
 			}
 		}
